@@ -375,9 +375,11 @@ def run_action(spec, inject=None, timeout=120):
         log = work / "strace.log"
         st = ["-o", str(log), "-xx", "-s", "8000000", "-e", f"trace={TRACE_SET}"]
         if inject is not None:
-            name, ordinal, what = inject
-            how = "signal=KILL" if what == "kill" else f"error={what}"
-            st += ["-e", f"inject={name}:{how}:when={ordinal}"]
+            # one injection (name, ordinal, what) or a list of them (fault COMBINATIONS; strace keeps
+            # one injection per system call name, so the names must differ)
+            for name, ordinal, what in ([inject] if isinstance(inject[0], str) else list(inject)):
+                how = "signal=KILL" if what == "kill" else f"error={what}"
+                st += ["-e", f"inject={name}:{how}:when={ordinal}"]
         spec_file.write_text(json.dumps(dict(spec, strace=st)))
         cmd = [vlib.PY, "-B", str(CHILD), str(spec_file)]
         env = vlib.impl_env()
